@@ -1,6 +1,7 @@
 (* C03 - text exposition parses back to exactly the exposed time series.   (layered: see DESIGN.md 7/C03)
    Statements only.  Models: model/Expo.v (exposition), model/TextParser.v (parser). *)
-From V Require Import lib.PyBase lib.PyStr model.Validation model.Expo model.TextParser proofs.EscapeProofs proofs.LabelRoundTrip.
+From V Require Import lib.PyBase lib.PyStr model.Validation model.Expo model.TextParser proofs.EscapeProofs proofs.LabelRoundTrip proofs.SampleRoundTrip.
+From V Require Import model.Utils.
 Open Scope N_scope.
 
 (* L1: the parser's unescaping inverts the exposition's escaping, for every string *)
@@ -37,3 +38,21 @@ Proof.
   cbv zeta. split; [repeat constructor|]. split; [|vm_compute; reflexivity].
   constructor; [intros [H|[]]; discriminate|]. constructor; [intros []|constructor].
 Qed.
+
+(* L4: a whole sample line of the text exposition - name, sorted label block, value, optional millisecond
+   timestamp - is read back by _parse_sample as exactly that sample.  Hypotheses are about CPython only:
+   the value token floatToGoString produced and the decimal timestamp are plain tokens (token_ok) and
+   int()/float() read them (parse_num ... = Some ...).  Label names and values are ARBITRARY.
+   Partial in one respect: samples whose NAME is not a legacy name are written as {"name",...}; that form is
+   covered by the correspondence and the direct oracle only. *)
+Theorem C03_L4_sample_roundtrip_legacy_name_partial :
+  forall (NUM : Type) (parse_num parse_float : str -> option NUM) (div1000 : NUM -> res NUM) s nv tsv,
+    is_valid_legacy_metric_name (s_name s) = true ->
+    Forall key_ok (map fst (s_labels s)) -> NoDup (map fst (s_labels s)) ->
+    token_ok (go_string (s_value s)) -> parse_num (go_string (s_value s)) = Some nv ->
+    ts_spec NUM parse_num div1000 s tsv ->
+    exists body, text_sample_line s = body ++ [LF] /\
+      parse_sample false true NUM parse_num parse_float div1000 true body
+      = Ok {| ps_name := s_name s; ps_labels := sort_kv (s_labels s); ps_value := nv; ps_ts := tsv |}.
+Proof. exact text_sample_roundtrip_legacy. Qed.
+Print Assumptions C03_L4_sample_roundtrip_legacy_name_partial.
